@@ -15,27 +15,32 @@ Lemma lit_parse_of_info : forall src i,
                   end.
 Proof. intros src i H. unfold lit_parse. rewrite H. reflexivity. Qed.
 
-Lemma set_exponent_nil : forall c, set_exponent c [] = 0%Z.
+(* without exponent and fraction the exponent is 0, unless the number has more than 100001 digits *)
+Lemma set_exponent_nil : forall c, (Z.of_N (digits c) <= 100001)%Z -> set_exponent c [] = Some 0%Z.
 Proof.
-  intros c. unfold set_exponent. cbn [forallb fold_left].
-  destruct ((max_exponent <? 0 + Z.of_N (digits c) - 1) || (0 + Z.of_N (digits c) - 1 <? - max_exponent))%Z; reflexivity.
+  intros c H. unfold set_exponent, max_exponent. cbn [forallb fold_left].
+  pose proof (digits_pos c).
+  repeat match goal with
+         | |- context [(?a <? ?b)%Z] => destruct (Z.ltb_spec a b); try lia
+         end; reflexivity.
 Qed.
 
 (* decimal_lit *)
 Theorem lit_dec_value : forall d,
-  lit_ok (GDec d) = true ->
+  lit_ok (GDec d) = true -> (Z.of_N (digits (chars_value 10 (ds_chars d))) <= 100001)%Z ->
   lit_parse (render (GDec d)) = LNum (mkNum KInt (mkDec false (chars_value 10 (ds_chars d)) 0)).
 Proof.
-  intros d Hok. rewrite (lit_parse_of_info _ _ (dec_scan true d Hok)).
+  intros d Hok Hlen. rewrite (lit_parse_of_info _ _ (dec_scan true d Hok)).
   cbn [lit_ok] in Hok. apply andb_prop in Hok. destruct Hok as [Hd _].
   unfold decimal_of. cbn [i_base i_buf i_mul i_float]. change (negb (10 =? 10)) with false. cbv iota.
+  assert (match ds_chars d with [] => [c_0] | b => b end = ds_chars d) as -> by reflexivity.
   pose proof (set_string_decimal (ds_chars d) [] false None) as S.
   cbn [dot_part exp_part app] in S. rewrite !app_nil_r in S.
   rewrite S; try reflexivity.
-  - cbv zeta. cbn [app]. rewrite set_exponent_nil. reflexivity.
+  - cbv zeta. change (int32_ok (expo_value None)) with true. cbv iota. cbn [app].
+    rewrite set_exponent_nil by exact Hlen. reflexivity.
   - unfold ds_chars. discriminate.
   - apply ds_chars_digits. exact Hd.
-  - simpl. lia.
 Qed.
 
 Lemma base_digit_not_minus : forall base c, base <= 16 -> is_base_digit base c = true -> c <> c_minus.
@@ -68,7 +73,7 @@ Definition exp_in_range (c : N) (E : Z) (nF : nat) : Prop :=
 
 Lemma set_exponent_in_range : forall c E nF (he hd : bool),
   exp_in_range c E nF -> (he = false -> E = 0%Z) -> (hd = false -> nF = O) ->
-  set_exponent c ((if he then [E] else []) ++ (if hd then [(- Z.of_nat nF)%Z] else [])) = (E - Z.of_nat nF)%Z.
+  set_exponent c ((if he then [E] else []) ++ (if hd then [(- Z.of_nat nF)%Z] else [])) = Some (E - Z.of_nat nF)%Z.
 Proof.
   intros c E nF he hd (R1 & R2 & R3) HE HD. unfold set_exponent, max_exponent.
   destruct he, hd; cbn [app forallb fold_left];
@@ -76,8 +81,24 @@ Proof.
     repeat match goal with
            | |- context [(?a <=? ?b)%Z] => destruct (Z.leb_spec a b); try lia
            | |- context [(?a <? ?b)%Z] => destruct (Z.ltb_spec a b); try lia
-           end; cbn [andb orb]; lia.
+           end; cbn [andb orb]; f_equal; lia.
 Qed.
+
+Lemma set_exponent_out_of_range : forall c E nF (he hd : bool),
+  ~ exp_in_range c E nF -> (he = false -> E = 0%Z) -> (hd = false -> nF = O) ->
+  set_exponent c ((if he then [E] else []) ++ (if hd then [(- Z.of_nat nF)%Z] else [])) = None.
+Proof.
+  intros c E nF he hd NR HE HD. unfold exp_in_range in NR. unfold set_exponent, max_exponent.
+  destruct he, hd; cbn [app forallb fold_left];
+    try (rewrite (HE eq_refl) in * ); try (rewrite (HD eq_refl) in * );
+    repeat match goal with
+           | |- context [(?a <=? ?b)%Z] => destruct (Z.leb_spec a b)
+           | |- context [(?a <? ?b)%Z] => destruct (Z.ltb_spec a b)
+           end; cbn [andb orb]; try reflexivity; exfalso; apply NR; lia.
+Qed.
+
+Lemma int32_of_range : forall E, (- 100000 <= E <= 100000)%Z -> int32_ok E = true.
+Proof. intros E H. unfold int32_ok. lia. Qed.
 
 (* float_lit : digits * 10^(exponent - number of fraction digits), of kind float *)
 Theorem lit_float_value : forall ip fp e,
@@ -95,15 +116,48 @@ Proof.
     apply ds_chars_digits. destruct ip; simpl in H3; exact H3. }
   assert (has_dot fp = false -> fp_chars fp = []) as HF by (destruct fp; [discriminate|reflexivity]).
   unfold decimal_of. cbn [i_base i_buf i_mul i_float]. change (negb (10 =? 10)) with false. cbv iota.
-  destruct HR as (R1 & R2 & R3).
-  rewrite set_string_decimal; auto; try lia. cbv zeta. rewrite VI.
-  unfold kind_of_float, mantissa. f_equal. f_equal. f_equal.
+  assert (match eff_int ip ++ dot_part (has_dot fp) (fp_chars fp) ++ exp_part e with [] => [c_0] | b => b end
+          = eff_int ip ++ dot_part (has_dot fp) (fp_chars fp) ++ exp_part e) as ->.
+  { destruct (eff_int ip); [contradiction|reflexivity]. }
+  rewrite set_string_decimal; auto. cbv zeta. rewrite VI.
+  rewrite int32_of_range by (destruct HR as (R1 & _); exact R1).
   assert ((match e with Some _ => [expo_value e] | None => [] end) =
           (if (match e with Some _ => true | None => false end) then [expo_value e] else [])) as ->
     by (destruct e; reflexivity).
-  rewrite set_exponent_in_range.
-  - unfold fp_chars. reflexivity.
-  - unfold exp_in_range. unfold chars_value in R3. auto.
+  rewrite (set_exponent_in_range _ (expo_value e) (length (fp_chars fp))).
+  - unfold kind_of_float, mantissa, fp_chars. reflexivity.
+  - unfold exp_in_range, chars_value in *. exact HR.
+  - destruct e; [discriminate|reflexivity].
+  - intros H. rewrite (HF H). reflexivity.
+Qed.
+
+(* ... and outside that range the literal is rejected (since the fix of finding F9; before,
+   the exponent was silently dropped) *)
+Theorem lit_float_out_of_range_rejected : forall ip fp e,
+  lit_ok (GFloat ip fp e) = true ->
+  ~ exp_in_range (chars_value 10 (opt_chars ip ++ fp_chars fp)) (expo_value e) (length (fp_chars fp)) ->
+  lit_parse (render (GFloat ip fp e)) = LErr.
+Proof.
+  intros ip fp e Hok HR. rewrite (lit_parse_of_info _ _ (float_scan true ip fp e Hok)).
+  cbn [lit_ok] in Hok.
+  apply andb_prop in Hok. destruct Hok as [Hok H3]. apply andb_prop in Hok. destruct Hok as [Hip He].
+  destruct (eff_int_facts ip Hip) as (DI & NI & VI).
+  assert (forallb is_digit (fp_chars fp) = true) as DF.
+  { unfold fp_chars, fp_flat. destruct fp as [[f|]|]; try reflexivity.
+    apply ds_chars_digits. destruct ip; simpl in H3; exact H3. }
+  assert (has_dot fp = false -> fp_chars fp = []) as HF by (destruct fp; [discriminate|reflexivity]).
+  unfold decimal_of. cbn [i_base i_buf i_mul i_float]. change (negb (10 =? 10)) with false. cbv iota.
+  assert (match eff_int ip ++ dot_part (has_dot fp) (fp_chars fp) ++ exp_part e with [] => [c_0] | b => b end
+          = eff_int ip ++ dot_part (has_dot fp) (fp_chars fp) ++ exp_part e) as ->.
+  { destruct (eff_int ip); [contradiction|reflexivity]. }
+  rewrite set_string_decimal; auto. cbv zeta. rewrite VI.
+  destruct (int32_ok (expo_value e)); [|reflexivity].
+  assert ((match e with Some _ => [expo_value e] | None => [] end) =
+          (if (match e with Some _ => true | None => false end) then [expo_value e] else [])) as ->
+    by (destruct e; reflexivity).
+  rewrite (set_exponent_out_of_range _ (expo_value e) (length (fp_chars fp))).
+  - reflexivity.
+  - unfold exp_in_range, chars_value in *. exact HR.
   - destruct e; [discriminate|reflexivity].
   - intros H. rewrite (HF H). reflexivity.
 Qed.
@@ -131,10 +185,14 @@ Proof.
           | (_, true) => None
           end) as DE.
   { unfold decimal_of, si_info. cbn [i_base i_buf i_mul i_float]. change (negb (10 =? 10)) with false. cbv iota.
+    assert (match eff_int ip ++ dot_part (match fp with Some _ => true | None => false end) (opt_chars fp)
+            with [] => [c_0] | b => b end
+            = eff_int ip ++ dot_part (match fp with Some _ => true | None => false end) (opt_chars fp)) as ->.
+    { destruct (eff_int ip); [contradiction|reflexivity]. }
     pose proof (set_string_decimal (eff_int ip) (opt_chars fp)
                   (match fp with Some _ => true | None => false end) None NI DI DF eq_refl) as SS.
     cbn [exp_part] in SS. rewrite app_nil_r in SS. rewrite SS; clear SS.
-    - cbv zeta. rewrite VI. cbn [app].
+    - cbv zeta. change (int32_ok (expo_value None)) with true. cbv iota. rewrite VI. cbn [app].
       pose proof (set_exponent_in_range (chars_value 10 (opt_chars ip ++ opt_chars fp)) 0
                     (length (opt_chars fp)) false (match fp with Some _ => true | None => false end) HR) as SE.
       cbn [app] in SE. unfold chars_value in SE. rewrite SE.
@@ -142,8 +200,7 @@ Proof.
         destruct (to_integral_flag _) as [r [|]]; reflexivity.
       + reflexivity.
       + destruct fp; [discriminate|reflexivity].
-    - destruct fp; [discriminate|reflexivity].
-    - simpl. lia. }
+    - destruct fp; [discriminate|reflexivity]. }
   unfold lit_parse. unfold parse_num. rewrite S, DE.
   destruct (to_integral_flag _) as [r [|]]; [reflexivity|].
   rewrite DE. reflexivity.
